@@ -6,8 +6,8 @@ from common import hexs
 ID = "C18"
 DRIVER = "s3"
 MODEL_FILES = ["Model/Base.v", "Model/Parse.v", "Model/Node.v", "Model/Disk.v", "Model/S3.v"]
-THEOREMS = []
-STRENGTH = {}
+THEOREMS = ["C18_part_history_restore", "C18_part_history_inv", "C18_part_snapshot_inv", "C18_part_roundtrip_reclaim", "C18_part_object_roundtrip", "C18_s3_roundtrip", "C18_s3_snapshot_other_objects", "C18_part_put_fault_reported", "C18_part_put_fault_once_retried", "C18_part_get_fault_once_retried", "C18_hyps_satisfiable", "C18_s3_put_fault_silent_refuted", "C18_s3_get_fault_panics_refuted", "C18_metadata_not_restored_refuted", "C18_metadata_not_restored_two_dbs", "C18_part_prefix_collision_refuted"]
+STRENGTH = {t: "proof-unbounded" for t in THEOREMS}
 RULE = ("the operation / snapshot / restart histories of the disk strategy (exhaustive sequences of length <= 3 quick / 4 thorough over "
         "{set, set-safe, remove, increment} x 2 keys, {snapshot false, snapshot true}, restart; seeded random sequences up to 30 steps "
         "over 4 keys and 2 databases) run against an in-process S3-compatible stub for strategy in {s3, s3_patition}, partition counts "
